@@ -338,28 +338,39 @@ pub open spec fn set_dm(set: SpanSet, parent_id: SpanId, d: DMap, anchor: Anchor
     }
 }
 
-pub open spec fn colls_recs(cs: Seq<SpanCollection>, anchor: Anchor) -> Seq<RecV>
+// a span collection by content (Owned and Shared only differ in how the set is held)
+pub struct CollV { pub set: SpanSet, pub trace_id: TraceId, pub parent_id: SpanId }
+
+pub open spec fn cv(c: SpanCollection) -> CollV {
+    CollV { set: sc_set(c), trace_id: sc_trace(c), parent_id: sc_parent(c) }
+}
+
+pub open spec fn cvs(cs: Seq<SpanCollection>) -> Seq<CollV> {
+    cs.map_values(|c: SpanCollection| cv(c))
+}
+
+pub open spec fn colls_recs(cs: Seq<CollV>, anchor: Anchor) -> Seq<RecV>
     decreases cs.len(),
 {
     if cs.len() == 0 { Seq::empty() } else {
-        colls_recs(cs.drop_last(), anchor) + set_recs(sc_set(cs.last()), sc_trace(cs.last()), sc_parent(cs.last()), anchor)
+        colls_recs(cs.drop_last(), anchor) + set_recs(cs.last().set, cs.last().trace_id, cs.last().parent_id, anchor)
     }
 }
 
-pub open spec fn colls_dm(cs: Seq<SpanCollection>, d: DMap, anchor: Anchor) -> DMap
+pub open spec fn colls_dm(cs: Seq<CollV>, d: DMap, anchor: Anchor) -> DMap
     decreases cs.len(),
 {
     if cs.len() == 0 { d } else {
-        set_dm(sc_set(cs.last()), sc_parent(cs.last()), colls_dm(cs.drop_last(), d, anchor), anchor)
+        set_dm(cs.last().set, cs.last().parent_id, colls_dm(cs.drop_last(), d, anchor), anchor)
     }
 }
 
 // what one postprocess call appends to the output / leaves parked
-pub open spec fn post_recs(cs: Seq<SpanCollection>, d: DMap, anchor: Anchor) -> Seq<RecV> {
+pub open spec fn post_recs(cs: Seq<CollV>, d: DMap, anchor: Anchor) -> Seq<RecV> {
     mount_recs(colls_recs(cs, anchor), colls_dm(cs, d, anchor))
 }
 
-pub open spec fn post_dm(cs: Seq<SpanCollection>, d: DMap, anchor: Anchor) -> DMap {
+pub open spec fn post_dm(cs: Seq<CollV>, d: DMap, anchor: Anchor) -> DMap {
     mount_dm(colls_recs(cs, anchor), colls_dm(cs, d, anchor))
 }
 
@@ -372,3 +383,261 @@ pub fn vec_tail_mut<T>(v: &mut Vec<T>, from: usize) -> (r: &mut [T])
         final(r)@.len() == r@.len(),
         final(v)@ == old(v)@.take(from as int) + final(r)@,
 { &mut v[from..] }
+
+// ---------------------------------------------------------------------------
+// TRUSTED: the collector's surroundings
+// ---------------------------------------------------------------------------
+// R6: Box<dyn Reporter> -> ReporterLog.  `reported()` is the ghost history of report() calls,
+// one entry (the batch, by content) per call.
+#[verifier::external_body]
+pub struct ReporterLog { _p: u8 }
+
+impl ReporterLog {
+    pub uninterp spec fn reported(&self) -> Seq<Seq<RecV>>;
+
+    #[verifier::external_body]
+    pub fn report(&mut self, spans: Vec<SpanRecord>)
+        ensures final(self).reported() == old(self).reported().push(recs_view(spans@)),
+    { unimplemented!() }
+}
+
+// R4: V.drain(..) consumed completely by a for loop
+#[verifier::external_body]
+pub fn vec_drain_all<T>(v: &mut Vec<T>) -> (r: Vec<T>)
+    ensures r@ == old(v)@, final(v)@ == Seq::<T>::empty(),
+{ v.drain(..).collect() }
+
+// R4: M.get_mut(&K)
+#[verifier::external_body]
+pub fn hm_get_mut<'a>(m: &'a mut HashMap<usize, ActiveCollector>, k: &usize) -> (r: Option<&'a mut ActiveCollector>)
+    ensures
+        r is Some <==> old(m)@.contains_key(*k),
+        r is None ==> *final(m) == *old(m),
+        r is Some ==> *(r->Some_0) == old(m)@[*k] && final(m)@ == old(m)@.insert(*k, *final(r->Some_0)),
+{ m.get_mut(k) }
+
+// R4: for V in M.values_mut() -> iterate over a snapshot of the keys (each key once, any order)
+#[verifier::external_body]
+pub fn hm_keys(m: &HashMap<usize, ActiveCollector>) -> (r: Vec<usize>)
+    ensures r@.no_duplicates(), r@.to_set() == m@.dom(),
+{ m.keys().copied().collect() }
+
+// R7: what one collector cycle receives.  Environment model: ANY four lists (per-thread FIFO order
+// inside each list is all that is known; no consistent cut across threads is promised).
+#[verifier::external_body]
+pub fn drain_receivers(start_collects: &mut Vec<StartCollect>, drop_collects: &mut Vec<DropCollect>,
+                       commit_collects: &mut Vec<CommitCollect>, submit_spans: &mut Vec<SubmitSpans>)
+    ensures
+        // the only thing known about what arrives: a submission never has an empty token
+        // (GlobalCollect::submit_spans sends nothing in that case -- obligation of unit `cmd`)
+        forall|i: int| 0 <= i < final(submit_spans)@.len() ==> (#[trigger] final(submit_spans)@[i]).collect_token@.len() > 0,
+{ unimplemented!() }
+
+// the receiving end of one thread's command queue (contract proved in units/spsc)
+#[verifier::external_body]
+#[verifier::reject_recursive_types(T)]
+pub struct Receiver<T> { _p: core::marker::PhantomData<T> }
+pub struct ChannelClosed;
+
+impl<T> Receiver<T> {
+    pub uninterp spec fn popped(&self) -> Seq<T>;
+    pub uninterp spec fn drained(&self) -> bool;
+
+    #[verifier::external_body]
+    pub fn try_recv(&mut self) -> (r: Result<Option<T>, ChannelClosed>)
+        ensures
+            r is Ok && r->Ok_0 is Some ==> final(self).popped() == old(self).popped().push(r->Ok_0->Some_0),
+            !(r is Ok && r->Ok_0 is Some) ==> final(self).popped() == old(self).popped(),
+            r is Err ==> final(self).drained(),
+    { unimplemented!() }
+}
+
+// ---------------------------------------------------------------------------
+// The oracle for one collector cycle (definitions).  State by content:
+//   ActMap: collect id -> (buffered collections, parked attachments)
+// A cycle applies, in this order: starts, drops, submits, commits, (default config only) a sweep
+// over the still-active traces, the stale submissions; then reports once.
+// ---------------------------------------------------------------------------
+pub struct ActV { pub colls: Seq<CollV>, pub dm: DMap }
+pub type ActMap = Map<usize, ActV>;
+
+pub open spec fn act_of(a: ActiveCollector) -> ActV {
+    ActV { colls: cvs(a.span_collections@), dm: dmap_of(a.danglings) }
+}
+
+pub open spec fn act_view(m: HashMap<usize, ActiveCollector>) -> ActMap {
+    Map::new(m@.dom(), |k: usize| act_of(m@[k]))
+}
+
+pub open spec fn act_fresh() -> ActV {
+    ActV { colls: Seq::empty(), dm: Map::empty() }
+}
+
+pub open spec fn start_ids(v: Seq<StartCollect>) -> Seq<usize> { v.map_values(|c: StartCollect| c.collect_id) }
+pub open spec fn drop_ids(v: Seq<DropCollect>) -> Seq<usize> { v.map_values(|c: DropCollect| c.collect_id) }
+pub open spec fn commit_ids(v: Seq<CommitCollect>) -> Seq<usize> { v.map_values(|c: CommitCollect| c.collect_id) }
+
+pub open spec fn ph_starts(act: ActMap, ids: Seq<usize>) -> ActMap
+    decreases ids.len(),
+{
+    if ids.len() == 0 { act } else { ph_starts(act, ids.drop_last()).insert(ids.last(), act_fresh()) }
+}
+
+pub open spec fn ph_drops(act: ActMap, ids: Seq<usize>) -> ActMap
+    decreases ids.len(),
+{
+    if ids.len() == 0 { act } else { ph_drops(act, ids.drop_last()).remove(ids.last()) }
+}
+
+// one parent item of one submission: buffered with its trace if that trace is active; otherwise
+// delivered at once as "stale" in the default configuration and discarded when cancelable
+pub open spec fn item_cv(set: SpanSet, item: CollectTokenItem) -> CollV {
+    CollV { set, trace_id: item.trace_id, parent_id: item.parent_id }
+}
+
+pub open spec fn item_act(act: ActMap, set: SpanSet, item: CollectTokenItem) -> ActMap {
+    if act.contains_key(item.collect_id) {
+        act.insert(item.collect_id, ActV { colls: act[item.collect_id].colls.push(item_cv(set, item)), dm: act[item.collect_id].dm })
+    } else {
+        act
+    }
+}
+
+pub open spec fn item_stale(act: ActMap, stale: Seq<CollV>, set: SpanSet, item: CollectTokenItem, cancelable: bool) -> Seq<CollV> {
+    if !act.contains_key(item.collect_id) && !cancelable { stale.push(item_cv(set, item)) } else { stale }
+}
+
+pub open spec fn items_act(act: ActMap, set: SpanSet, items: Seq<CollectTokenItem>) -> ActMap
+    decreases items.len(),
+{
+    if items.len() == 0 { act } else { item_act(items_act(act, set, items.drop_last()), set, items.last()) }
+}
+
+pub open spec fn items_stale(act: ActMap, stale: Seq<CollV>, set: SpanSet, items: Seq<CollectTokenItem>, cancelable: bool) -> Seq<CollV>
+    decreases items.len(),
+{
+    if items.len() == 0 { stale } else {
+        item_stale(items_act(act, set, items.drop_last()), items_stale(act, stale, set, items.drop_last(), cancelable), set, items.last(), cancelable)
+    }
+}
+
+pub open spec fn ph_submits_act(act: ActMap, subs: Seq<SubmitSpans>) -> ActMap
+    decreases subs.len(),
+{
+    if subs.len() == 0 { act } else {
+        items_act(ph_submits_act(act, subs.drop_last()), subs.last().spans, subs.last().collect_token@)
+    }
+}
+
+pub open spec fn ph_submits_stale(act: ActMap, stale: Seq<CollV>, subs: Seq<SubmitSpans>, cancelable: bool) -> Seq<CollV>
+    decreases subs.len(),
+{
+    if subs.len() == 0 { stale } else {
+        items_stale(ph_submits_act(act, subs.drop_last()), ph_submits_stale(act, stale, subs.drop_last(), cancelable),
+            subs.last().spans, subs.last().collect_token@, cancelable)
+    }
+}
+
+pub open spec fn ph_commits_act(act: ActMap, ids: Seq<usize>) -> ActMap
+    decreases ids.len(),
+{
+    if ids.len() == 0 { act } else { ph_commits_act(act, ids.drop_last()).remove(ids.last()) }
+}
+
+pub open spec fn commit_out(a: ActMap, id: usize, anchor: Anchor) -> Seq<RecV> {
+    if a.contains_key(id) { post_recs(a[id].colls, a[id].dm, anchor) } else { Seq::empty() }
+}
+
+pub open spec fn ph_commits_out(act: ActMap, ids: Seq<usize>, anchor: Anchor) -> Seq<RecV>
+    decreases ids.len(),
+{
+    if ids.len() == 0 { Seq::empty() } else {
+        ph_commits_out(act, ids.drop_last(), anchor) + commit_out(ph_commits_act(act, ids.drop_last()), ids.last(), anchor)
+    }
+}
+
+// default configuration: every still-active trace delivers what it has buffered and keeps only
+// the attachments whose span has not arrived yet
+pub open spec fn sweep_act1(a: ActMap, k: usize, anchor: Anchor) -> ActMap {
+    if a.contains_key(k) { a.insert(k, ActV { colls: Seq::empty(), dm: post_dm(a[k].colls, a[k].dm, anchor) }) } else { a }
+}
+
+pub open spec fn ph_sweep_act(act: ActMap, ks: Seq<usize>, anchor: Anchor) -> ActMap
+    decreases ks.len(),
+{
+    if ks.len() == 0 { act } else { sweep_act1(ph_sweep_act(act, ks.drop_last(), anchor), ks.last(), anchor) }
+}
+
+pub open spec fn ph_sweep_out(act: ActMap, ks: Seq<usize>, anchor: Anchor) -> Seq<RecV>
+    decreases ks.len(),
+{
+    if ks.len() == 0 { Seq::empty() } else {
+        ph_sweep_out(act, ks.drop_last(), anchor) + commit_out(ph_sweep_act(act, ks.drop_last(), anchor), ks.last(), anchor)
+    }
+}
+
+pub open spec fn ph_stale_out(stale: Seq<CollV>, anchor: Anchor) -> Seq<RecV>
+    decreases stale.len(),
+{
+    if stale.len() == 0 { Seq::empty() } else {
+        ph_stale_out(stale.drop_last(), anchor) + post_recs(seq![stale.last()], Map::empty(), anchor)
+    }
+}
+
+// the whole cycle
+pub struct Batch {
+    pub starts: Seq<usize>,
+    pub drops: Seq<usize>,
+    pub submits: Seq<SubmitSpans>,
+    pub commits: Seq<usize>,
+}
+
+pub open spec fn cy_act3(act: ActMap, b: Batch) -> ActMap {
+    ph_submits_act(ph_drops(ph_starts(act, b.starts), b.drops), b.submits)
+}
+
+pub open spec fn cy_stale(act: ActMap, b: Batch, cancelable: bool) -> Seq<CollV> {
+    ph_submits_stale(ph_drops(ph_starts(act, b.starts), b.drops), Seq::empty(), b.submits, cancelable)
+}
+
+pub open spec fn cy_act4(act: ActMap, b: Batch) -> ActMap {
+    ph_commits_act(cy_act3(act, b), b.commits)
+}
+
+pub open spec fn cy_final_act(act: ActMap, b: Batch, cancelable: bool, ks: Seq<usize>, anchor: Anchor) -> ActMap {
+    if cancelable { cy_act4(act, b) } else { ph_sweep_act(cy_act4(act, b), ks, anchor) }
+}
+
+pub open spec fn cy_out(act: ActMap, b: Batch, cancelable: bool, ks: Seq<usize>, anchor: Anchor) -> Seq<RecV> {
+    ph_commits_out(cy_act3(act, b), b.commits, anchor)
+        + (if cancelable { Seq::empty() } else { ph_sweep_out(cy_act4(act, b), ks, anchor) })
+        + ph_stale_out(cy_stale(act, b, cancelable), anchor)
+}
+
+impl GlobalCollector {
+    pub open spec fn scratch_empty(&self) -> bool {
+        &&& self.start_collects@.len() == 0
+        &&& self.drop_collects@.len() == 0
+        &&& self.commit_collects@.len() == 0
+        &&& self.submit_spans@.len() == 0
+        &&& self.stale_spans@.len() == 0
+    }
+}
+
+pub open spec fn batch_ok(b: Batch) -> bool {
+    forall|i: int| 0 <= i < b.submits.len() ==> (#[trigger] b.submits[i]).collect_token@.len() > 0
+}
+
+pub open spec fn keys_ok(ks: Seq<usize>, a: ActMap) -> bool {
+    ks.no_duplicates() && ks.to_set() =~= a.dom()
+}
+
+pub open spec fn cy_wit(b: Batch, ks: Seq<usize>, anchor: Anchor) -> bool { true }
+
+pub open spec fn hc_frame(config: Config, reporter: Option<ReporterLog>, o: GlobalCollector) -> bool {
+    config == o.config && reporter == o.reporter && o.reporter is Some
+}
+
+// derived Default of ActiveCollector: empty vector, empty map (Rust's derive; assumed)
+pub assume_specification [<ActiveCollector as Default>::default] () -> (r: ActiveCollector)
+    ensures r.span_collections@ =~= Seq::<SpanCollection>::empty(), r.danglings@ =~= Map::<SpanId, Vec<DanglingItem>>::empty();
